@@ -11,6 +11,7 @@ namespace vh {
 class MemInBuf final : public std::streambuf {
 public:
 	MemInBuf(const char* data, size_t n) { char* p = const_cast<char*>(data); setg(p, p, p + n); }
+	size_t pos() const { return static_cast<size_t>(gptr() - eback()); }
 protected:
 	pos_type seekoff(off_type off, std::ios_base::seekdir dir, std::ios_base::openmode which) override {
 		if (!(which & std::ios_base::in)) return pos_type(off_type(-1));
@@ -30,6 +31,7 @@ public:
 class MemIStream final : public std::istream {
 public:
 	MemIStream(const char* data, size_t n) : std::istream(nullptr), mBuf(data, n) { init(&mBuf); }
+	size_t pos() const { return mBuf.pos(); }      // get position regardless of the state flags
 private:
 	MemInBuf mBuf;
 };
